@@ -87,11 +87,45 @@ func (d *dagStoreImpl) UpdateSpec(name string, spec []byte) error {
 	if !exists(loc) {
 		return fmt.Errorf("%w: %s", errDOGFileNotExist, loc)
 	}
-	err = os.WriteFile(loc, spec, defaultPerm)
-	if err != nil {
+	if err := writeFileAtomic(loc, spec, defaultPerm); err != nil {
 		return err
 	}
 	d.metaCache.Invalidate(loc)
+	return nil
+}
+
+// writeFileAtomic replaces the file with the given content in one step:
+// the content is written to a temporary file in the same directory which is
+// then renamed over the target, so that the target always holds either the
+// complete old or the complete new content.
+func writeFileAtomic(loc string, data []byte, perm os.FileMode) error {
+	tmp, err := os.CreateTemp(filepath.Dir(loc), filepath.Base(loc)+".tmp-*")
+	if err != nil {
+		return err
+	}
+	tmpName := tmp.Name()
+	cleanup := func(err error) error {
+		_ = tmp.Close()
+		_ = os.Remove(tmpName)
+		return err
+	}
+	if _, err := tmp.Write(data); err != nil {
+		return cleanup(err)
+	}
+	if err := tmp.Chmod(perm); err != nil {
+		return cleanup(err)
+	}
+	if err := tmp.Sync(); err != nil {
+		return cleanup(err)
+	}
+	if err := tmp.Close(); err != nil {
+		_ = os.Remove(tmpName)
+		return err
+	}
+	if err := os.Rename(tmpName, loc); err != nil {
+		_ = os.Remove(tmpName)
+		return err
+	}
 	return nil
 }
 
